@@ -26,7 +26,7 @@ struct pkt_rec { uint8_t type, qos, rc; bool dup, retain, has_rc; uint16_t pid; 
 // one user operation
 struct op_rec { int kind; int done; int ec; int rc; int rcs[3]; int nrcs; bool inline_completion; int64_t t_done; uint16_t pid_seen; };
 // one message handed to the application by async_receive
-struct msg_rec { int ec; uint8_t topic0; uint8_t payload0; uint32_t tlen, plen; };
+struct msg_rec { int ec; uint8_t topic0, topic1; uint8_t payload0, payload1; uint32_t tlen, plen; bool has_exp; uint32_t exp; int nprops; };
 
 struct W {
   client_t c { vk::executor{} };
@@ -57,6 +57,8 @@ struct W {
     vk::complete_write(s, ec ? 0 : n, ec);
     parse_rx();
   }
+  // the client's write succeeds locally but the bytes never reach the broker (connection dies with data in flight)
+  void lose_write(vk::sock_rec* s) { writes_completed++; vk::complete_write(s, s->wdata.size(), {}); }
   void parse_rx() {
     while (rx_parsed < rx_n) {
       ref::packet k; int rv = ref::decode(rx + rx_parsed, rx_n - rx_parsed, k);
@@ -152,9 +154,14 @@ struct W {
   }
   void receive() {
     receive_pending++; in_api = true;
-    c.async_receive([this](error_code ec, std::string topic, std::string payload, publish_props) {
+    c.async_receive([this](error_code ec, std::string topic, std::string payload, publish_props props) {
       receive_pending--; vk_assert(nmsgs < MAXMSG, "harness: message capacity"); msg_rec& m = msgs[nmsgs++];
-      m.ec = ec.value(); m.tlen = (uint32_t)topic.size(); m.plen = (uint32_t)payload.size(); m.topic0 = topic.empty() ? 0 : (uint8_t)topic[0]; m.payload0 = payload.empty() ? 0 : (uint8_t)payload[0];
+      m.ec = ec.value(); m.tlen = (uint32_t)topic.size(); m.plen = (uint32_t)payload.size();
+      m.topic0 = topic.size() > 0 ? (uint8_t)topic[0] : 0; m.topic1 = topic.size() > 1 ? (uint8_t)topic[1] : 0;
+      m.payload0 = payload.size() > 0 ? (uint8_t)payload[0] : 0; m.payload1 = payload.size() > 1 ? (uint8_t)payload[1] : 0;
+      m.has_exp = props[prop::message_expiry_interval].has_value(); m.exp = m.has_exp ? *props[prop::message_expiry_interval] : 0;
+      m.nprops = (props[prop::payload_format_indicator].has_value() ? 1 : 0) + (m.has_exp ? 1 : 0) + (props[prop::content_type].has_value() ? 1 : 0) + (props[prop::response_topic].has_value() ? 1 : 0) +
+                 (props[prop::correlation_data].has_value() ? 1 : 0) + (int)props[prop::subscription_identifier].size() + (props[prop::topic_alias].has_value() ? 1 : 0) + (int)props[prop::user_property].size();
     });
     in_api = false;
   }
